@@ -1,4 +1,6 @@
 import Girc.Model.Handlers
+import Girc.Model.Commands
+import Girc.Model.Split
 /-
   The sequential client core: a history of received lines is parsed and dispatched one event at a
   time (execLoop); locally injected events (ERROR) are processed after the event that injected them;
@@ -18,44 +20,55 @@ structure Run where
   ended : Ended := .running
   deriving Repr
 
-/-- `Send` as far as the built-in handlers use it: nothing they send needs formatting or splitting
-    (PRIVMSG/NOTICE splitting is modelled in Model/Split.lean and applied by `sendPieces` there). -/
-def applyOuts (r : Run) : List Out → Run × List Event
+/-- `Send`: optional `Fmt` of the last parameter (GlobalFormat), then `Event.split` against the
+    current MaxEventLength; every piece goes to the send queue. -/
+def sendPieces (cfg : Cfg) (isURL : Bytes → Bool) (st : St) (e : Event) : List Event :=
+  let e := if cfg.globalFormat && e.params.length > 0 && !(e.params.getLastD []).isEmpty &&
+        (e.command = PRIVMSG || e.command = cTOPIC || e.command = NOTICE) then
+      { e with params := e.params.dropLast ++ [fmt (e.params.getLastD [])] }
+    else e
+  eventSplit isURL e (maxEventLength cfg st)
+
+def applyOuts (cfg : Cfg) (isURL : Bytes → Bool) (r : Run) : List Out → Run × List Event
   | [] => (r, [])
   | o :: rest =>
     match o with
-    | .write e | .send e =>
-      let (r', inj) := applyOuts { r with written := r.written ++ [e] } rest
-      (r', inj)
-    | .inject e => let (r', inj) := applyOuts r rest; (r', e :: inj)
-    | .close => let (r', inj) := applyOuts r rest; ({ r' with ended := if r'.ended = .running then .closed else r'.ended }, inj)
+    | .write e => applyOuts cfg isURL { r with written := r.written ++ [e] } rest
+    | .send e => applyOuts cfg isURL { r with written := r.written ++ sendPieces cfg isURL r.cs.st e } rest
+    | .inject e => let (r', inj) := applyOuts cfg isURL r rest; (r', e :: inj)
+    | .close => let (r', inj) := applyOuts cfg isURL r rest; ({ r' with ended := if r'.ended = .running then .closed else r'.ended }, inj)
 
 /-- One event taken from the receive queue by `execLoop`. -/
-def stepEvent (cfg : Cfg) (r : Run) (e : Event) (time idle : Bytes := []) : M (Run × List Event) := do
+def stepEvent (cfg : Cfg) (r : Run) (e : Event) (time idle : Bytes := []) (isURL : Bytes → Bool := fun _ => true) : M (Run × List Event) := do
   let (cs, outs) ← handleEvent cfg r.cs e time idle
-  let (r, inj) := applyOuts { r with cs := cs } outs
+  let (r, inj) := applyOuts cfg isURL { r with cs := cs } outs
   -- execLoop: after the handlers, an ERROR event makes Connect return ErrEvent
   let r := if e.command = cERROR && r.ended = .running then { r with ended := .errEvent e.last } else r
   .ok (r, inj)
 
 /-- Process an event and then everything it injected (fuel bounds injection chains). -/
-def stepAll (cfg : Cfg) : Nat → Run → List Event → M Run
+def stepAll (cfg : Cfg) (isURL : Bytes → Bool := fun _ => true) : Nat → Run → List Event → M Run
   | _, r, [] => .ok r
   | 0, r, _ => .ok r
   | fuel + 1, r, e :: queue =>
     if r.ended ≠ .running then .ok r
     else do
-      let (r, inj) ← stepEvent cfg r e
-      stepAll cfg fuel r (queue ++ inj)
+      let (r, inj) ← stepEvent cfg r e [] [] isURL
+      stepAll cfg isURL fuel r (queue ++ inj)
 
 /-- One line read by `readLoop`. -/
-def stepLine (cfg : Cfg) (r : Run) (line : Bytes) : M Run :=
+def stepLine (cfg : Cfg) (r : Run) (line : Bytes) (isURL : Bytes → Bool := fun _ => true) : M Run :=
   if r.ended ≠ .running then .ok r
   else match parseEvent line with
     | none => .ok { r with ended := .parseError }
-    | some e => stepAll cfg 8 r [e]
+    | some e => stepAll cfg isURL 8 r [e]
 
-def runLines (cfg : Cfg) (r : Run) (lines : List Bytes) : M Run := lines.foldlM (stepLine cfg) r
+def runLines (cfg : Cfg) (r : Run) (lines : List Bytes) : M Run := lines.foldlM (fun r l => stepLine cfg r l) r
+
+/-- A command helper called by the application (`Cmd.*`). -/
+def stepCall (cfg : Cfg) (isURL : Bytes → Bool) (r : Run) (name : Bytes) (args : List Bytes) : Run :=
+  if r.ended ≠ .running then r
+  else (applyOuts cfg isURL r (helperOuts (maxEventLength cfg r.cs.st) name args)).1
 
 /-! ### canonical dump -/
 
